@@ -199,7 +199,12 @@ func mockerBody(tg *target, out *[]obs, yield func(string)) {
 	b := mocker.Create()
 	arg := 5 + tg.idx
 	if tg.origin != nil {
-		b.Func(tg.fn).Origin(tg.origin).Apply(func(a int) int { return (*tg.origin)(a) + 50000 })
+		b.Func(tg.fn).Origin(tg.origin).Apply(func(a int) int {
+			if vk.InCallAlready() {
+				return (*tg.origin)(a)
+			}
+			return (*tg.origin)(a) + 50000
+		})
 		yield("after-apply")
 		*out = append(*out, obs{tg.name, "after Apply(cb calling origin)", tg.fn(arg), arg + tg.k + 50000})
 	} else {
@@ -242,7 +247,12 @@ func installSteady() *mocker.Builder {
 		b0.Func(steady.fn).Return(seq1).AndReturn(seq2)
 		return b0
 	}
-	b0.Func(steady.fn).Origin(steady.origin).Apply(func(a int) int { return (*steady.origin)(a) + steadyBonus })
+	b0.Func(steady.fn).Origin(steady.origin).Apply(func(a int) int {
+		if vk.InCallAlready() {
+			return (*steady.origin)(a)
+		}
+		return (*steady.origin)(a) + steadyBonus
+	})
 	return b0
 }
 
